@@ -430,6 +430,10 @@ def coordinator_unit(ctx):
     class Queue:
         def join(self):
             log.append(("join",))
+            if g["pool"] == "out" and not pool_args:
+                # the worker threads are not managed through worker_pool() on this path (started and joined inline, or not started at all): this
+                # contract composes run_function_on_graph WITH the contract of worker_pool - it does not apply; the engine stress and the probes decide
+                ctx.unsupported("run_function_on_graph waits for the queue without having entered worker_pool(): the coordinator contract does not apply")
             ctx.check("join:inside-the-pool", bool(g["pool"] == "in"))
             if ctx.choose(2, "queue.join") == 1:
                 raise JoinBoom()
